@@ -1,6 +1,220 @@
 #!/usr/bin/env python3
-"""lift -- block lifts for Kani (C05 conflict resolution, C17 CLI mapping). Filled in below."""
+"""lift -- *block lifts* for Kani (labelled as such in every report; DESIGN.md section 3, C05 and C17).
+
+A block lift copies a statement range of a function that neither verifier can take whole, verbatim, into a
+generated function that is compiled *inside the real crate* (cfg(kani) include!) against the real types.
+Trusted on top of Kani: wrapping a statement range in a function header whose parameters are exactly the
+range's free variables preserves its meaning.  The free-variable set is recomputed from the token stream on
+every run and compared with the declared list; any difference, or a moved anchor, is exit 2 (ExtractError).
+"""
+import hashlib
+import os
+import re
+import sys
+
+sys.path.insert(0, os.path.dirname(os.path.abspath(__file__)))
+import rsx  # noqa: E402
+from rsx import ExtractError  # noqa: E402
+
+
+def idents(src, lo, hi):
+    return [t.text for t in src.toks[lo:hi] if t.kind == "ident"]
+
+
+def bound_names_outside(src, fn_item, blk_lo, blk_hi):
+    """identifiers bound (let / for / closure params / fn params / if-let / match arms) in fn_item outside [blk_lo, blk_hi)"""
+    t = src.toks
+    names = set()
+    i = fn_item.kw
+    while i < fn_item.body_close:
+        if blk_lo <= i < blk_hi:
+            i = blk_hi
+            continue
+        tok = t[i]
+        if tok.kind == "ident" and tok.text in ("let", "for"):
+            j = src.sig(i + 1)
+            stop = "=" if tok.text == "let" else "in"
+            while j < fn_item.body_close and t[j].text != stop and t[j].text != ";":
+                if t[j].kind == "ident" and t[j].text not in ("mut", "ref", "Some", "Ok", "Err", "None") and t[src.sig(j + 1)].text not in ("(", "::", "{"):
+                    names.add(t[j].text)
+                if t[j].text == ":" and t[j + 1].text != ":":  # type ascription: skip to stop
+                    while t[j].text not in (stop, ";"):
+                        j += 1
+                    break
+                j += 1
+        elif tok.text == "|":
+            # closure parameter list |a, b|
+            p = src.prev_sig(i)
+            if t[p].text in ("(", ",", "="):
+                j = i + 1
+                while t[j].text != "|":
+                    if t[j].kind == "ident" and t[j].text not in ("mut", "ref"):
+                        names.add(t[j].text)
+                    j += 1
+                i = j
+        i += 1
+    # fn parameters
+    p = src.sig(fn_item.kw + 1)
+    while t[p].text != "(":
+        p += 1
+    close = src.match(p)
+    j = p + 1
+    while j < close:
+        if t[j].kind == "ident" and t[src.sig(j + 1)].text == ":":
+            names.add(t[j].text)
+        if t[j].kind == "ident" and t[j].text == "self":
+            names.add("self")
+        j += 1
+    return names
+
+
+def bound_names_inside(src, lo, hi):
+    t = src.toks
+    names = set()
+    i = lo
+    while i < hi:
+        tok = t[i]
+        if tok.kind == "ident" and tok.text in ("let", "for"):
+            j = src.sig(i + 1)
+            stop = "=" if tok.text == "let" else "in"
+            while j < hi and t[j].text != stop and t[j].text != ";":
+                if t[j].kind == "ident" and t[j].text not in ("mut", "ref") and t[src.sig(j + 1)].text not in ("(", "::", "{"):
+                    names.add(t[j].text)
+                if t[j].text == ":" and t[j + 1].text != ":":
+                    break
+                j += 1
+        elif tok.text == "|" and t[src.prev_sig(i)].text in ("(", ",", "="):
+            j = i + 1
+            while t[j].text != "|":
+                if t[j].kind == "ident" and t[j].text not in ("mut", "ref"):
+                    names.add(t[j].text)
+                j += 1
+            i = j
+        i += 1
+    return names
+
+
+def lift_conflict_block(repo, gen):
+    rel = "rustemo-compiler/src/table/mod.rs"
+    src = rsx.Source(os.path.join(repo, rel))
+    imp = src.find_impl(r"^impl < 'g , 's > LRTable < 'g , 's >", has="calculate_reductions")
+    fn = imp.child("fn", "calculate_reductions")
+    t = src.toks
+    anchor = None
+    for i in range(fn.body_open, fn.body_close):
+        if t[i].kind == "comment" and t[i].text.strip() == "// Conflict. Try to resolve.":
+            if anchor is not None:
+                raise ExtractError("conflict block: anchor comment appears twice")
+            anchor = i
+    if anchor is None:
+        raise ExtractError("conflict block: anchor comment `// Conflict. Try to resolve.` not found in calculate_reductions")
+    ob = src.prev_sig(anchor)
+    if t[ob].text != "{" or t[src.prev_sig(ob)].text != "else":
+        raise ExtractError("conflict block: anchor is not the first thing inside an `else {` arm")
+    cb = src.match(ob)
+    # the `if` this else belongs to must test `actions.is_empty()`
+    ifclose = src.prev_sig(src.prev_sig(ob))
+    if t[ifclose].text != "}":
+        raise ExtractError("conflict block: unexpected shape before else")
+    ifopen = src.match(ifclose)
+    cond = "".join(x.text for x in t[ifopen - 12:ifopen] if x.kind not in ("ws", "comment"))
+    if not cond.endswith("ifactions.is_empty()"):
+        raise ExtractError(f"conflict block: the guarding condition is no longer `if actions.is_empty()` ({cond[-40:]!r})")
+    then_body = "".join(x.text for x in t[ifopen + 1:ifclose] if x.kind not in ("ws", "comment"))
+    block_text = src.text[t[ob].e:t[cb].s]
+    outside = bound_names_outside(src, fn, ob, cb + 1)
+    used = set(idents(src, ob + 1, cb))
+    # names (re)bound inside the range itself (closure parameters, lets) shadow outer ones of the same name
+    inside = bound_names_inside(src, ob + 1, cb)
+    free = sorted(((outside & used) - inside) | ({"self"} if "self" in used else set()))
+    declared = ["actions", "follow_term", "item", "new_reduce", "prod", "self", "state"]
+    if free != declared:
+        raise ExtractError(f"conflict block: free variables changed: now {free}, declared {declared}")
+    # log! statements inside are kept verbatim (none today)
+    sha = hashlib.sha256(block_text.encode()).hexdigest()[:16]
+    a, z = src.line_of(t[ob].s), src.line_of(t[cb].e)
+    out = f"""// GENERATED by /verif/tools/lift.py on every run -- do not edit.  BLOCK LIFT (not an extraction for Verus):
+// lines {a}-{z} of {rel} (sha256/16 {sha}), the `else` arm of `if actions.is_empty()` in
+// LRTable::calculate_reductions, copied verbatim into a method whose receiver/parameters are exactly the
+// free variables of the range: {', '.join(declared)}.
+pub(super) struct LiftCtx<'g, 's> {{
+    pub settings: &'s Settings,
+    pub grammar: &'g Grammar,
+}}
+impl<'g, 's> LiftCtx<'g, 's> {{
+    #[allow(clippy::all)]
+    pub(super) fn conflict_block(
+        &self,
+        state: &LRState<'g>,
+        item: &LRItem,
+        prod: &crate::grammar::Production,
+        follow_term: &Terminal,
+        actions: &mut Vec<Action>,
+        new_reduce: Action,
+    ) {{
+{block_text}
+    }}
+    /// the `then` arm, for completeness: `{then_body}`
+    pub(super) fn no_conflict(actions: &mut Vec<Action>, new_reduce: Action) {{
+        actions.push(new_reduce.clone());
+    }}
+}}
+"""
+    if then_body != "actions.push(new_reduce.clone());":
+        raise ExtractError(f"conflict block: the no-conflict arm changed: {then_body!r}")
+    os.makedirs(gen, exist_ok=True)
+    open(os.path.join(gen, "conflict_block.rs"), "w").write(out)
+    return {"lift": "conflict_block", "file": rel, "lines": [a, z], "sha256_16": sha, "free_variables": declared}
+
+
+def lift_cli_mapping(repo, gen):
+    rel = "rustemo-compiler/src/main.rs"
+    src = rsx.Source(os.path.join(repo, rel))
+    fn = src.find("fn", "main")
+    t = src.toks
+    body = src.text[t[fn.body_open].e:t[fn.body_close].s]
+    start_lit = "let mut settings = Settings::new()"
+    end_lit = "let result = if cli.grammar_file_or_dir.is_file()"
+    if body.count(start_lit) != 1 or body.count(end_lit) != 1:
+        raise ExtractError("cli mapping: anchors `let mut settings = Settings::new()` / `let result = if cli.grammar_file_or_dir.is_file()` not found exactly once")
+    s0 = body.index(start_lit)
+    e0 = body.index(end_lit)
+    pre = body[:s0]
+    pre_norm = re.sub(r"\s+", "", re.sub(r"//[^\n]*", "", pre))
+    if pre_norm != "letcli=Cli::parse();":
+        raise ExtractError(f"cli mapping: statements before the range changed: {pre_norm!r}")
+    block = body[s0:e0]
+    # free variables: only `cli`
+    sub = rsx.Source(rel + "#range", text=block)
+    used = set(x.text for x in sub.toks if x.kind == "ident")
+    if "cli" not in used or "self" in used:
+        raise ExtractError("cli mapping: unexpected free variables")
+    sha = hashlib.sha256(block.encode()).hexdigest()[:16]
+    a = src.line_of(t[fn.body_open].e + s0)
+    z = src.line_of(t[fn.body_open].e + e0)
+    # the harness must not execute Settings::new()/trace (environment access); the range is split at `Settings::new()`
+    if block.count("Settings::new()") != 1:
+        raise ExtractError("cli mapping: Settings::new() must appear exactly once")
+    block2 = block.replace("Settings::new()", "base", 1)
+    out = f"""// GENERATED by /verif/tools/lift.py on every run -- do not edit.  BLOCK LIFT:
+// lines {a}-{z} of {rel} (sha256/16 {sha}): the statements of main() from `let mut settings =` up to (not
+// including) `let result =`, verbatim, except that the single occurrence of `Settings::new()` is replaced by the
+// parameter `base` (Settings::default() reads environment variables, a foreign call Kani cannot model).
+#[allow(clippy::all)]
+fn lifted_cli_to_settings(cli: Cli, base: Settings) -> Settings {{
+    {block2}
+    settings
+}}
+"""
+    os.makedirs(gen, exist_ok=True)
+    open(os.path.join(gen, "cli_mapping.rs"), "w").write(out)
+    return {"lift": "cli_mapping", "file": rel, "lines": [a, z], "sha256_16": sha, "free_variables": ["cli"]}
 
 
 def generate_all(repo, gen):
-    return []
+    return [lift_conflict_block(repo, gen), lift_cli_mapping(repo, gen)]
+
+
+if __name__ == "__main__":
+    import json
+    print(json.dumps(generate_all(sys.argv[1] if len(sys.argv) > 1 else "/repo", sys.argv[2] if len(sys.argv) > 2 else "/verif/build/gen"), indent=1))
